@@ -2,6 +2,7 @@ package rules
 
 import (
 	"fmt"
+	"go/token"
 	"go/types"
 
 	"golang.org/x/tools/go/ssa"
@@ -54,6 +55,41 @@ func isFresh(v ssa.Value) bool {
 		return isFresh(x.X)
 	case *ssa.IndexAddr:
 		return isFresh(x.X)
+	case *ssa.UnOp:
+		// a local pointer variable kept in a cell (a named result in a function with a defer, a variable
+		// assigned on several paths): fresh when every store into the cell stores a fresh allocation and
+		// the cell is only ever loaded from and stored to
+		cell, ok := x.X.(*ssa.Alloc)
+		if !ok || x.Op != token.MUL || cell.Referrers() == nil {
+			return false
+		}
+		stores := 0
+		for _, r := range *cell.Referrers() {
+			switch y := r.(type) {
+			case *ssa.UnOp:
+				if y.Op != token.MUL {
+					return false
+				}
+			case *ssa.Store:
+				if y.Addr != ssa.Value(cell) {
+					return false // the cell's address is stored somewhere
+				}
+				if c, isConst := y.Val.(*ssa.Const); isConst && c.IsNil() {
+					continue
+				}
+				if ld, isLoad := y.Val.(*ssa.UnOp); isLoad && ld.Op == token.MUL && ld.X == ssa.Value(cell) {
+					continue // `return el, nil` with a named result el: the cell is stored into itself
+				}
+				if _, isAlloc := y.Val.(*ssa.Alloc); !isAlloc {
+					return false
+				}
+				stores++
+			case *ssa.DebugRef:
+			default:
+				return false
+			}
+		}
+		return stores > 0
 	}
 	return false
 }
